@@ -24,8 +24,16 @@ Qed.
 Print Assumptions C10_pred.
 
 (* non-vacuity: across the 1582 gap, across a skipped year, and at the upper limit *)
-Example C10_ex :
-  (exists d d', Calendar_at_jdn (cal_of (CR 2299161)) 2299160 = Ret d /\ Date_succ d = Ret (Some d') /\ (Date_f_year d', Date_f_month d', Date_f_day d') = (1582, Month_October, 15)) /\
-  (exists d d', Calendar_at_jdn (cal_of (CR 19582149)) 19582148 = Ret d /\ Date_succ d = Ret (Some d') /\ (Date_f_year d, Date_f_year d') = (48900, 48902)) /\
-  (exists d, Calendar_at_jdn Calendar_GREGORIAN 2147483647 = Ret d /\ Date_succ d = Ret None).
-Proof. repeat split; repeat eexists; vm_compute; reflexivity. Qed.
+Definition succ_label (k : Calendar) (j : Z) : option (Z * Month * Z * Z) :=
+  match Calendar_at_jdn k j with
+  | Ret d => match Date_succ d with Ret (Some d') => Some (Date_f_year d', Date_f_month d', Date_f_day d', Date_f_jdn d') | _ => None end
+  | Panic => None
+  end.
+Example C10_ex1 : succ_label (cal_of (CR 2299161)) 2299160 = Some (1582, Month_October, 15, 2299161).
+Proof. vm_compute. reflexivity. Qed.
+Example C10_ex2 : succ_label (cal_of (CR 19582149)) 19582148 = Some (48902, Month_January, 1, 19582149).
+Proof. vm_compute. reflexivity. Qed.
+Example C10_ex3 : succ_label Calendar_GREGORIAN 2147483647 = None.
+Proof. vm_compute. reflexivity. Qed.
+Example C10_ex4 : succ_label Calendar_GREGORIAN 2147483646 = Some (5874898, Month_June, 3, 2147483647).
+Proof. vm_compute. reflexivity. Qed.
